@@ -1088,6 +1088,23 @@ class Resolver:
     def lookup_facts(self, stmt) -> dict[str, set[bool]]:
         """{'explicit'|'slugs': polarities} of registry membership facts that hold at ``stmt``."""
         out: dict[str, set[bool]] = {"explicit": set(), "slugs": set()}
+        # a failed *hit test* `K in R and <conditions on the entry R[K]>` (e.g. the entry's id is still in the tree) counts as a failed
+        # lookup of R: the false edge of such a conjunction is not decomposed by the CFG's fact extraction
+        for e, p in self.cfg.guards(stmt):
+            if p or not (isinstance(e, ast.BoolOp) and isinstance(e.op, ast.And)):
+                continue
+            conj = [fp for v in e.values for fp in facts(v, True)]
+            regs = set()
+            for ce, cp in conj:
+                if cp and isinstance(ce, ast.Compare) and len(ce.ops) == 1 and isinstance(ce.ops[0], ast.In) and isinstance(ce.comparators[0], ast.Name) and ce.comparators[0].id in (self.explicit, self.slugs):
+                    if _derives(self.fi, ce.left, lambda s: isinstance(s, ast.Name) and s.id == self.target):
+                        regs.add(ce.comparators[0].id)
+            if len(regs) != 1:
+                continue
+            reg = next(iter(regs))
+            rest = [ce for ce, cp in conj if not (isinstance(ce, ast.Compare) and isinstance(ce.comparators[0], ast.Name) and ce.comparators[0].id == reg and isinstance(ce.ops[0], ast.In))]
+            if all(any(isinstance(x, ast.Subscript) and isinstance(x.value, ast.Name) and x.value.id == reg for x in ast.walk(c)) and not _mentions_name(c, self.var) for c in rest):
+                out["explicit" if reg == self.explicit else "slugs"].add(False)
         for e, p in self.cfg.guards(stmt):
             # hit = R.get(K); `if hit` / `if hit is not None` (registry values are non-empty tuples)
             g, gp = self._get_call(e), p
@@ -1618,6 +1635,22 @@ def r3_loop_paths(corpus: Corpus, rep: Report, tier: str):
                 rep.ok(R3, k, site)
             elif not fell:
                 rep.violation(R3, k, site, "the reference is handed to the project-wide resolver on a path that has not failed both local lookups: the project-wide resolver does not know heading slugs, and explicit targets lose priority")
+    # (b') any other tuple store into the slug registry inside the transform (e.g. the refresh of the titles) keeps the writer's layout
+    for n in fi.local_nodes():
+        if isinstance(n, ast.Assign) and isinstance(n.targets[0], ast.Subscript) and isinstance(n.targets[0].value, ast.Name) and n.targets[0].value.id == rs.slugs and isinstance(n.value, ast.Tuple):
+            k = f"{fq}|`{short(n.targets[0], 30)} = ...` keeps the slug registry's layout"
+            elts = n.value.elts
+            wid, wtitle = pos["slugs"].get("id"), pos["slugs"]["title"]
+            problems = []
+            if wid is not None:
+                if wid >= len(elts) or _registry_positions_of(rs, elts[wid]) != {("slugs", wid)}:
+                    problems.append(f"position {wid} (the node id) is not copied from the old entry")
+            if wtitle >= len(elts) or not _direct(fi, elts[wtitle], lambda x: isinstance(x, ast.Call) and (dotted(x.func) or "").endswith("astext")):
+                problems.append(f"position {wtitle} (the title text) is not a title text")
+            if problems:
+                rep.violation(R3, k, m.site(n), f"`{short(n, 70)}`: {'; '.join(problems)} - the writer ({pos['_sites']['slugs']}) and both readers use (line, id, title): links are pointed at a wrong id / get a wrong text")  # type: ignore[index]
+            else:
+                rep.ok(R3, k, m.site(n))
     # (c) warnings: count per outcome, place and subtype
     for kind, st, node in outcomes:
         cls = classes.get(id(st))
@@ -1642,10 +1675,18 @@ def r3_loop_paths(corpus: Corpus, rep: Report, tier: str):
         k = f"{fq}|warning at the link's own line"
         line = kwarg(w, "line")
         nd = kwarg(w, "node")
-        if (isinstance(line, ast.Attribute) and line.attr == "line" and isinstance(line.value, ast.Name) and line.value.id == rs.var) or (isinstance(nd, ast.Name) and nd.id == rs.var):
-            rep.ok(R3, k, site, f"line={short(line, 30) if line is not None else 'node=' + rs.var}")
+        if isinstance(nd, ast.Name) and nd.id == rs.var:
+            rep.ok(R3, k, site, f"node={rs.var} (source and line of the link)")
+        elif isinstance(line, ast.Attribute) and line.attr == "line" and isinstance(line.value, ast.Name) and line.value.id == rs.var:
+            rep.violation(
+                R3,
+                k,
+                site,
+                f"the warning is located by `line={short(line, 30)}` alone: the reporter combines the number with the path of the top-level document, so a missing '#' link inside an "
+                f"included file is reported as '<including file>:<line of the included file>' - pass `node={rs.var}` (its source and line)",
+            )
         else:
-            rep.violation(R3, k, site, f"the warning is located by `{short(line, 30) if line is not None else 'nothing'}`, not by {rs.var}.line")
+            rep.violation(R3, k, site, f"the warning is located by `{short(line, 30) if line is not None else short(nd, 30) if nd is not None else 'nothing'}`, not by the link ({rs.var})")
         k = f"{fq}|warning subtype is XREF_MISSING"
         sub = w.args[2] if len(w.args) > 2 else kwarg(w, "subtype")
         if sub is not None and (dotted(sub) or "").endswith("MystWarnings.XREF_MISSING"):
@@ -1674,6 +1715,31 @@ def r3_loop_paths(corpus: Corpus, rep: Report, tier: str):
             ("refexplicit reflects the link text", (lambda e: e is not None and any(rs._is_children(s) for s in ast.walk(e)) and not any(isinstance(s, ast.UnaryOp) and isinstance(s.op, ast.Not) for s in ast.walk(e)))(kwarg(ctor, "refexplicit")), "refexplicit must be true exactly when the link has text: otherwise an empty link is not filled in / explicit text is replaced"),
             ("refdoc is given", kwarg(ctor, "refdoc") is not None, "the resolver needs the source document"),
         ]
+        located = {"line": False, "source": False}
+        for n in rs.body:
+            if isinstance(n, ast.Assign):
+                pairs = []
+                for t in n.targets:
+                    if isinstance(t, ast.Tuple) and isinstance(n.value, ast.Tuple) and len(t.elts) == len(n.value.elts):
+                        pairs += list(zip(t.elts, n.value.elts))
+                    else:
+                        pairs.append((t, n.value))
+                for t, v in pairs:
+                    if isinstance(t, ast.Attribute) and isinstance(t.value, ast.Name) and t.value.id == newnode.id and t.attr in located:
+                        if isinstance(v, ast.Attribute) and v.attr == t.attr and isinstance(v.value, ast.Name) and v.value.id == rs.var and cfg.dominates(cfg.stmt_of(n), cfg.stmt_of(call)):
+                            located[t.attr] = True
+            elif isinstance(n, ast.Call) and isinstance(n.func, ast.Attribute) and n.func.attr in ("set_source_info", "copy_source") :
+                pass
+        for a in ("line", "source"):
+            kw = kwarg(ctor, a)
+            if isinstance(kw, ast.Attribute) and kw.attr == a and isinstance(kw.value, ast.Name) and kw.value.id == rs.var:
+                located[a] = True
+        checks.append((
+            "carries the link's source and line",
+            located["line"] and located["source"],
+            f"the pending_xref gets no {'line' if not located['line'] else 'source'} from {rs.var}: Sphinx locates the later 'target not found' warning through the node's ancestors, "
+            "so a link inside a table cell (whose cell nodes have no line) is reported as 'index.md:: WARNING' without a line number",
+        ))
         for label, okv, why in checks:
             k = f"{fq}|pending_xref: {label}"
             if okv:
@@ -1744,19 +1810,26 @@ def r3_loop_paths(corpus: Corpus, rep: Report, tier: str):
                 m.site(node),
                 f"after `{short(node, 50)}` a path reaches the loop head with {rs.var}.children possibly empty and no text added ({what}): the reference is rendered with no content, i.e. the link silently disappears",
             )
-    # evidence only: emptiness test evaluated after a message node was appended to the reference
+    # the '#target' fallback of the miss outcome must be decided on the link's own children: create_warning(append_to=refnode)
+    # appends the system_message to the reference, after which `not refnode.children` is false
     for w in rs.warnings:
         ap = kwarg(w, "append_to")
-        if isinstance(ap, ast.Name) and ap.id == rs.var:
-            stw = cfg.stmt_of(w)
-            for n in rs.body:
-                if isinstance(n, ast.If) and rs.children_facts(n.test, True) + rs.children_facts(n.test, False) and cfg.dominates(stw, n):
-                    rep.listed(
-                        R3,
-                        f"{fq}|miss: emptiness test after append_to={rs.var}",
-                        m.site(n),
-                        f"`{short(n.test, 40)}` is evaluated after create_warning(append_to={rs.var}) has appended the system_message, so the '#target' fallback text is only added when the warning is suppressed (pinned by fixture docutil_link_resolution.md [missing]; outside C09's statement, relevant to C14)",
-                    )
+        if not (isinstance(ap, ast.Name) and ap.id == rs.var):
+            continue
+        stw = cfg.stmt_of(w)
+        tests = [n for n in rs.body if isinstance(n, ast.If) and rs.children_facts(n.test, True) + rs.children_facts(n.test, False)]
+        after = [n for n in tests if cfg.dominates(stw, n)]
+        k = f"{fq}|miss: the '#target' fallback is decided before the warning is appended to the reference"
+        if after:
+            rep.violation(
+                R3,
+                k,
+                m.site(after[0]),
+                f"`{short(after[0].test, 40)}` is evaluated after create_warning(..., append_to={rs.var}) has appended the system_message to the reference, so it is never true when the warning is emitted: "
+                f"an empty link to a missing target (`[](#nope)`) is rendered with no text at all, and gets its '#nope' text only when myst.xref_missing is suppressed",
+            )
+        else:
+            rep.ok(R3, k, m.site(w))
     rep.expect_min(R3, 14, "outcomes (3 refid stores + 1 replace), their classification, warning counts, pending_xref fields, text fill")
 
 
@@ -2168,6 +2241,70 @@ def r5_explicit_only(corpus: Corpus, rep: Report, tier: str):
             "become '#'-targets and are searched before the slugs, so `#getting-started` hits the heading titled 'getting-started' instead of the one whose slug it is, "
             "and a link whose target does not exist (`<#my title>`) resolves silently",
         )
+    # reader: a name may not be dropped from the registry because its node has an attribute that MyST's own id carriers have
+    # (nodes that copy_attributes gives an id to: a reference with a refuri that was written `[text](url){#id}`, ...)
+    carriers: list[tuple[str, set[str], str]] = []
+    for g in corpus.all_functions():
+        if g.is_lambda:
+            continue
+        for c in g.local_nodes():
+            if not (isinstance(c, ast.Call) and _self_call(c) == "copy_attributes" and len(c.args) >= 2 and isinstance(c.args[1], ast.Name)):
+                continue
+            keys_e = c.args[2] if len(c.args) > 2 else kwarg(c, "keys")
+            keys_e = _iter_source(g, keys_e) if keys_e is not None else None
+            if not isinstance(keys_e, (ast.Tuple, ast.List)) or not any(isinstance(x, ast.Constant) and x.value == "id" for x in keys_e.elts):
+                continue
+            nv = c.args[1].id
+            ctors = {g.module.resolve(dotted(v.func) or "") for v, i, _ in _bindings(g, nv) if i is None and isinstance(v, ast.Call)}
+            ctors = {d.rsplit(".", 1)[1] for d in ctors if d.startswith("docutils.nodes.")}
+            attrs = {
+                t.slice.value
+                for n in g.local_nodes()
+                if isinstance(n, ast.Assign)
+                for t in n.targets
+                if isinstance(t, ast.Subscript) and isinstance(t.value, ast.Name) and t.value.id == nv and isinstance(t.slice, ast.Constant) and isinstance(t.slice.value, str)
+            }
+            for cls_ in ctors:
+                carriers.append((cls_, attrs, g.module.site(c)))
+    node_vars = {
+        t.id
+        for n in walk_local(rs.explicit_loop)
+        if isinstance(n, ast.Assign) and any(isinstance(c, ast.Attribute) and c.attr == "ids" for c in ast.walk(n.value))
+        for t in n.targets
+        if isinstance(t, ast.Name)
+    }
+    for e, p in cfg.guards(store_st):
+        if p:
+            continue
+        conj = [fp for v in e.values for fp in facts(v, True)] if isinstance(e, ast.BoolOp) and isinstance(e.op, ast.And) else [(e, True)]
+        tests = [
+            (ce, ce.comparators[0].id)
+            for ce, cp in conj
+            if cp and isinstance(ce, ast.Compare) and len(ce.ops) == 1 and isinstance(ce.ops[0], ast.In) and isinstance(ce.left, ast.Constant) and isinstance(ce.left.value, str)
+            and isinstance(ce.comparators[0], ast.Name) and ce.comparators[0].id in node_vars
+        ]
+        for ce, nv_ in tests:
+            attr = ce.left.value
+            classes, odd = _class_facts(fi, conj, nv_)
+            kk = f"{fi.fq}|nodes with attribute {attr!r} are dropped from the registry"
+            if odd:
+                rep.error(R5, f"{m.site(ce)}: the class restriction next to `{short(ce, 30)}` was not understood")
+                continue
+            hit = [(c_, site_) for c_, attrs, site_ in carriers if attr in attrs and (classes is None or c_ in classes)]
+            if hit:
+                rep.violation(
+                    R5,
+                    kk,
+                    m.site(ce),
+                    f"`{short(e, 60)}` skips every named node that has the attribute {attr!r}"
+                    + (f" and is a nodes.{'/'.join(sorted(classes))}" if classes else ", whatever its class")
+                    + f" - but MyST itself gives ids to nodes.{hit[0][0]} nodes carrying {attr!r} ({hit[0][1]}: `[text](https://example.com){{#lid}}`): the id is registered as an explicit target and "
+                    "`[go](#lid)` is nevertheless reported as 'target not found'. The filter (copied from Sphinx) is meant for rST's link-generated `<target refuri=...>` nodes only",
+                )
+            else:
+                rep.ok(R5, kk, m.site(ce), f"restricted to nodes.{'/'.join(sorted(classes))}" if classes else "no MyST id carrier has this attribute")
+    if not carriers:
+        rep.error(R5, "no copy_attributes(..., keys containing 'id') call site found: the id carriers could not be enumerated")
     # writers
     seen = set()
     for f, call, arg in _name_writers(corpus):
@@ -2816,7 +2953,45 @@ def r11_no_loop_carried_values(corpus: Corpus, rep: Report, tier: str):
     rep.expect_min(R11, 3, "registry entry (id, title) and the refid values")
 
 
-RULES = [r1_dispatch, r2_attribute_agreement, r3_loop_paths, r4_key_normalisation, r5_explicit_only, r6_title_extraction, r7_slug_key_fresh, r8_slug_registry_monotone, r9_title_text_sanitised, r10_slug_registry_complete, r11_no_loop_carried_values]
+# ---------------------------------------------------------------------------
+# R12 names created by an {eval-rst} block are re-registered with the real document at every depth
+
+
+@rule("C09.R12")
+def r12_eval_rst_names(corpus: Corpus, rep: Report, tier: str):
+    R12 = "C09.R12"
+    rep.rule(R12, "render_restructuredtext parses into a scratch document whose registry is discarded: every named node of it, at any depth, is re-registered with the real document before its subtrees are moved over")
+    base = corpus.mod(BASE)
+    f = base.func("DocutilsRenderer.render_restructuredtext")
+    rep.saw_function(f.fq)
+    scratch = [t.id for n in f.local_nodes() if isinstance(n, ast.Assign) and isinstance(n.value, ast.Call) and (dotted(n.value.func) or "").endswith("make_document") for t in n.targets if isinstance(t, ast.Name)]
+    if len(scratch) != 1:
+        raise Unsupported(f"{f.qualname}: expected one scratch document (make_document()), found {len(scratch)}")
+    sd = scratch[0]
+    loops = [n for n in f.local_nodes() if isinstance(n, ast.For) and any(isinstance(c, ast.Call) and isinstance(c.func, ast.Attribute) and c.func.attr == "note_explicit_target" for c in walk_local(n))]
+    k = f"{f.fq}|names of nested rST nodes are re-registered with the real document"
+    if not loops:
+        rep.violation(R12, k, f.site(), f"the names registered in the scratch document `{sd}` are never re-registered with self.document: no `#name` link can reach a target defined in an {{eval-rst}} block")
+        return
+    for lp in loops:
+        it = lp.iter
+        deep = any(isinstance(c, ast.Call) and (dotted(c.func) or "").rsplit(".", 1)[-1] in ("findall", "traverse") for c in ast.walk(it))
+        if deep and _mentions_name(it, sd):
+            rep.ok(R12, k, f.module.site(lp), short(it, 50))
+        elif (isinstance(it, ast.Name) and it.id == sd) or (isinstance(it, ast.Attribute) and it.attr == "children" and isinstance(it.value, ast.Name) and it.value.id == sd):
+            rep.violation(
+                R12,
+                k,
+                f.module.site(lp),
+                f"`{short(lp, 50)}` visits only the direct children of the scratch document, but whole subtrees are moved into the real document: a `.. _inner-label:` target or a `:name:` option nested "
+                "inside e.g. `.. note::` is in the doctree with its id, yet document.nametypes/nameids never learn the name and `[b](#inner-label)` is reported as 'target not found'",
+            )
+        else:
+            rep.error(R12, f"{f.module.site(lp)}: re-registration loop over `{short(it, 40)}` not understood")
+    rep.expect_min(R12, 1, "the re-registration loop")
+
+
+RULES = [r1_dispatch, r2_attribute_agreement, r3_loop_paths, r4_key_normalisation, r5_explicit_only, r6_title_extraction, r7_slug_key_fresh, r8_slug_registry_monotone, r9_title_text_sanitised, r10_slug_registry_complete, r11_no_loop_carried_values, r12_eval_rst_names]
 
 
 # ---------------------------------------------------------------------------
@@ -2947,9 +3122,14 @@ def mutants(corpus: Corpus):
         stw = rs.cfg.stmt_of(w0)
         add("c09-miss-warning-dropped", R3, tr, splice(tr.src, stw, "pass"), "miss: number")
         add("c09-miss-warning-twice", R3, tr, splice(tr.src, stw, _seg(tr, stw) + "\n" + _indent(tr, stw) + _seg(tr, stw)), "miss: number")
-        ln = kwarg(w0, "line")
+        ln = kwarg(w0, "line") or kwarg(w0, "node")
         if ln is not None:
             add("c09-warning-line-lost", R3, tr, splice(tr.src, ln, "None"), "link's own line")
+        ndk = find_node(f, lambda n: isinstance(n, ast.keyword) and n.arg == "node" and any(n is k_ for k_ in w0.keywords))
+        if ndk is not None:  # revert of 498de41: locate the warning by the line number alone
+            add("c09-warning-located-by-line-only", R3, tr, splice(tr.src, ndk, f"line={rs.var}.line"), "link's own line")
+        else:
+            out.append(("c09-warning-located-by-line-only", "the warning is not located by node= on this tree"))
     if rs.replaces:
         call, _ = rs.replaces[0]
         mv = find_node(f, lambda n: isinstance(n, ast.AugAssign) and any(rs._is_children(x) for x in ast.walk(n.value)))
@@ -3197,4 +3377,27 @@ def mutants(corpus: Corpus):
         if ide:
             add("c09-slug-registry-stores-recomputed-id", R3, base, splice(base.src, ide[0], "nodes.make_id(name)"), "id docutils assigned")
             add("c09-slug-registry-stores-slug-as-id", R3, base, splice(base.src, ide[0], "slug"), "id docutils assigned")
+    # ---- reverts of the round-10 repairs ---------------------------------------------------------------------------------------------
+    # 16f967c: the refuri filter applies to every node again
+    filt = find_node(f, lambda n: isinstance(n, ast.BoolOp) and isinstance(n.op, ast.And) and any(isinstance(v, ast.Compare) and isinstance(v.left, ast.Constant) and v.left.value == "refuri" for v in n.values)
+                     and any(isinstance(v, ast.Call) and dotted(v.func) == "isinstance" for v in n.values))
+    if filt is not None:
+        cmp_ = [v for v in filt.values if isinstance(v, ast.Compare)][0]
+        add("c09-refuri-filter-for-every-node", R5, tr, splice(tr.src, filt, _seg(tr, cmp_)), "'refuri' are dropped")
+    else:
+        out.append(("c09-refuri-filter-for-every-node", "no class-restricted refuri filter in the registry loop"))
+    # 768236e: the pending_xref gets no source/line
+    loc = find_node(f, lambda n: isinstance(n, ast.Assign) and any(isinstance(x, ast.Attribute) and x.attr == "line" and isinstance(x.ctx, ast.Store) for t in n.targets for x in ast.walk(t)) and any(n is b for b in rs.body))
+    if loc is not None:
+        add("c09-pending-xref-without-line", R3, tr, splice(tr.src, loc, "pass"), "source and line")
+    else:
+        out.append(("c09-pending-xref-without-line", "the pending_xref is not given source/line by an assignment"))
+    # the title refresh re-writes the slug registry: layout must be kept
+    ref = find_node(f, lambda n: isinstance(n, ast.Assign) and isinstance(n.targets[0], ast.Subscript) and isinstance(n.targets[0].value, ast.Name) and n.targets[0].value.id == rs.slugs and isinstance(n.value, ast.Tuple))
+    if ref is not None and len(ref.value.elts) == 3:
+        a0, a1, a2 = (_seg(tr, x) for x in ref.value.elts)
+        add("c09-title-refresh-swaps-line-and-id", R3, tr, splice(tr.src, ref.value, f"({a1}, {a0}, {a2})"), "keeps the slug registry's layout")
+    # the liveness filter must not turn a failed hit into a silent drop: explicit hit test loses its priority role when it tests the link
+    if e_if is not None and isinstance(e_if.test, ast.BoolOp):
+        add("c09-explicit-hit-only-for-links-with-text", R3, tr, splice(tr.src, e_if.test, f"{_seg(tr, e_if.test.values[0])} and {rs.var}.children"), "explicit lookup dominates")
     return out
